@@ -33,10 +33,14 @@ extern "C" {
 
 #include "eventloop.h"
 
+struct epoll_event;
+
 struct eventloop_epoll {
 	int epoll_fd;
 	struct io_event *current_ev;
 	struct eventloop loop;
+	struct epoll_event *pending_events;
+	int num_pending_events;
 };
 
 int eventloop_epoll_init(void *this_ptr);
